@@ -468,6 +468,34 @@ func cliParse(row string) (*ketoapi.RelationTuple, error) {
 	return &t, nil
 }
 
+// cliParseFile runs the command on a file of several rows: the given row, a row whose object is
+// longer than any line buffer a reader might use (70 000 bytes), the given row again. All three
+// must come out, in order.
+func cliParseFile(row string) (ok bool) {
+	long := "n:" + strings.Repeat("x", 70000) + "#r@s"
+	cmd := clirt.NewParseCmd()
+	var out, errb bytes.Buffer
+	cmd.SetIn(strings.NewReader(row + "\n" + long + "\n" + row + "\n"))
+	cmd.SetOut(&out)
+	cmd.SetErr(&errb)
+	cmd.SetArgs([]string{"-", "--format", "json"})
+	cmd.SilenceUsage, cmd.SilenceErrors = true, true
+	if err := cmd.Execute(); err != nil {
+		return false
+	}
+	var ts []ketoapi.RelationTuple
+	if err := json.Unmarshal(out.Bytes(), &ts); err != nil || len(ts) != 3 {
+		return false
+	}
+	want, err := (&ketoapi.RelationTuple{}).FromString(row)
+	if err != nil {
+		return false
+	}
+	return csvTuple(&ts[0]) == csvTuple(want) && csvTuple(&ts[2]) == csvTuple(want) && len(ts[1].Object) == 70000
+}
+
+var cliFileEvery int
+
 // cliEligible: the row survives the command's own line handling unchanged (one line,
 // no surrounding white space, not blank, not a comment).
 func cliEligible(s string) bool {
@@ -502,7 +530,13 @@ func runEncCase(op string, toks []string) (impl string, stat []string, nontrivia
 			case cerr == nil && csvTuple(ct) != csvTuple(t):
 				impl += "\tcli=differs"
 			default:
-				impl += "\tcli=same"
+				cliFileEvery++
+				if cerr == nil && cliFileEvery%40 == 0 && !cliParseFile(s) {
+					impl += "\tcli=differs"
+					add("str-parse:cli-file-differs")
+				} else {
+					impl += "\tcli=same"
+				}
 			}
 			add("str-parse:cli")
 		}
